@@ -181,7 +181,13 @@ func writeUnbrotli(w io.Writer, p []byte, maxBodySize int) (int, error) {
 		return 0, err
 	}
 	n, err := copyZeroAllocWithLimit(w, zr, maxBodySize)
-	releaseBrotliReader(zr)
+	if err == nil {
+		// Only a reader that consumed its whole stream goes back to the pool:
+		// brotli.Reader.Reset does not discard input it has buffered but not yet
+		// decoded, so a reader abandoned mid-stream (body over the limit, corrupt
+		// data) would start the next, unrelated body with those stale bytes.
+		releaseBrotliReader(zr)
+	}
 	nn := int(n)
 	if int64(nn) != n {
 		return 0, fmt.Errorf("too much data unbrotlied: %d", n)
